@@ -22,6 +22,11 @@ Definition apply_mapping {A} (mask : nat -> nat -> A) (mapping : nat -> nat -> n
 (* x[p] for an index list p (numpy fancy indexing along the first axis) *)
 Definition permute {A} (d : A) (p : list nat) (l : list A) : list A := map (fun j => nth j l d) p.
 
+(* mask.reshape(K, F*T) of a frequency-major mask: class row k = its rows of all bins, joined
+   (OraclePermutationAlignment docstring: join frequency and time to solve a global permutation) *)
+Definition flatten_bins {A} (K : nat) (bins : list (list (list A))) : list (list A) :=
+  map (fun k => concat (map (fun b => nth k b []) bins)) (seq 0 K).
+
 (* ------------------------------------------------------------------------------------------ *)
 (* itertools.permutations(l): pick each element in positional order, then permute the rest     *)
 Fixpoint picks {A} (l : list A) : list (A * list A) :=
